@@ -9,6 +9,13 @@ Case kinds
           `LLMRails.generate`, all generation modes (search territory: oracle only, no model); includes the
           stored-then-quoted family: LLM text that is stored (last bot message, generated value, action result) and quoted
           in a LATER step/turn by a predefined message (`$var`, `{{ var }}`), a `bot $var` step or a 2.x `bot say $v`
+  asm     a list of NEW EVENTS handed to the real `LLMRails.generate_async` (the runtime's answer is replaced): the response assembly
+          that runs after the runtime returned, outside every try/except, vs Models/LlmAssemble.lean (spec regenerated from llmrails.py)
+  e2e/ctrl (phase 5) the texts that the code AFTER the generation actions interprets - string literals that llmrails.py, the runtimes,
+          the verbose / streaming handlers compare with or splice around a text, scanned from the source by the translator - as the
+          exact message at every message position of every mode (first and later utterance of the call), near misses, flow forms;
+          and the public interfaces of `generate` (options with every log on, `prompt=`, explicit state, streaming handler, an
+          instance created with verbose=True, an empty events cache = second instance / restart)
 Static tie: ast scan of both generation.py files for every call of a render function and the provenance of its argument.
 """
 import ast
@@ -31,6 +38,7 @@ RULE = ("fn/act: structured completions (lines built from Colang/verbose prefixe
         "line boundary and whitespace class, template/variable syntax, escape_flow_name keywords) plus a malformed stream over a "
         "hostile alphabet; e2e: every base conversation of every mode (dialog, single_call, multi_step, general, passthrough, "
         "v2 intent/flow/value/utterance, and the stored-then-quoted conversations dialog_q/single_call_q/v2_quote) with a hostile or mutated completion at each LLM call position; "
+        "control family: every string literal the post-processing compares with a text (scanned from the source) as the exact message at every message position of every mode incl. later-utterance bases, near misses, flow forms, through every public interface of generate; asm: event lists over the assembly's type / script literals and near misses; "
         "quote family: a marked payload of template/variable/escape tokens at the position whose text is stored and later quoted. non-trivial = the text has "
         ">= 2 lines or a recognised prefix/quote/template token (fn/act), or a hostile completion was actually consumed (e2e); "
         "distinct = distinct case JSON.")
@@ -40,11 +48,14 @@ TRUSTED_BASE = [
     "CPython str methods are the reference for Py/Str.lean (whitespace and line-boundary tables compared exhaustively on every run)",
     "Jinja2, literal_eval, the Colang 1.0 parser and compute_next_steps are ORACLES of the models (any result, any exception); their real behaviour is observed by the differential tasks (parse spy, literal_eval classification, step table) and exercised end-to-end",
     "dataflow translator harness/translate/c17.py: provenance roots by name, intra-procedural, closures = join of what their body reads",
+    "assembly translator harness/translate/c17.py::assembly (shape of the two `for event in new_events` loops of generate_async -> Generated/C17Assembly.lean; any other shape breaks the tie) and the literal scan control_literals (which texts the generator feeds)",
 ]
 ASSUMPTIONS = [
     "the theorems cover the text post-processing inside the generation actions, the dispatcher's containment, the try/except structure of v1 _process_start_flow and the generate_events loop (parser / compute_next_steps as oracles) and the literal_eval wrapper of 2.x GenerateValueAction; v2 AddFlowsAction + the execution of generated flows, eval_expression and Jinja itself are search territory",
     "multi_step_never_raises_repaired and generate_value_v2_total are about the REPAIRED code (fixes/C17-v1-flow-error-ends-turn.diff, fixes/C17-v2-generated-value-plain.diff); on the unpatched tree the as-is theorems are the partial ones and the differential accepts either behaviour inside the open findings' regions",
     "escape_flow_name's `\\b\\d+\\b` step is modelled for ASCII text only (non-ASCII strings are compared up to the replace chain by the oracle-only stream)",
+    "assemble_total / assembleV2_total assume that the events the runtimes create carry the keys their type promises (`script`, `final_script`, `action_uid`); without it only KeyError is possible (assemble_only_key_error); the `asm` differential feeds event lists with and without these keys",
+    "the control script `(remove last message)` as LLM-written message text IS interpreted by generate_async (the reply loses the previous utterance): the property statement speaks of template and variable syntax, so this is recorded (design_notes/C17.md, phase 5), not reported",
     "completions longer than 4000 characters are only run end-to-end (the model driver recurses over List Char)",
 ]
 
@@ -85,6 +96,9 @@ def translate():
     info = tr.run()
     _TINFO.clear()
     _TINFO.update(info)
+    a = info.get("assembly", {})
+    _TINFO["assembly"] = a
+    _TINFO["assembly_literals"] = [a.get(k) for k in ("utter_type", "remove_script", "exception_suffix", "v2_finished") if a.get(k)] or None
     return info
 
 
@@ -104,6 +118,8 @@ def static_tie():
     `if bot_intent in self.config.bot_messages`, on a value read from `self.bot_messages[...]`; `from_string`/`render`
     only inside `_render_string`.  v2 generation.py — exactly one `_render_string` call, on the flow docstring."""
     problems = []
+    if _TINFO.get("assembly_tie_broken"):
+        problems.append("response assembly of generate_async: " + _TINFO["assembly_tie_broken"] + " (Models/LlmAssemble.lean models the previous shape)")
     if _TINFO.get("sinks") is not None:
         got = [(x["file"].replace("nemoguardrails/", ""), x["function"], x["callee"], x["template"]) for x in _TINFO["sinks"] if "taskmanager" not in x["file"]]
         if got != EXPECTED_SINKS:
@@ -387,6 +403,273 @@ def gen_quote(rng, n):
     return out
 
 
+# ---- phase 5: texts that the code AFTER the generation actions interprets -------------------------------------------------------
+# `control_texts()` comes from the translator (string literals that llmrails.py / the runtimes / the verbose handler / the streaming
+# handler compare with, search in or split at a text): a new control script or marker in the source becomes a hostile text of the
+# next run without touching this file.
+CTRL_BASES = [
+    # (mode, turns, cooperative completions, fallback): the LLM-written message is a LATER utterance of the call (after a predefined one) …
+    ("dialog_c", ["two things", "zzz"], ["  ask two things", "  \"Second.\"", "  ask something", "bot inform thing", "  \"Fine.\""], "  \"fb\""),
+    # … stands before and after the flow-authored `bot remove last message` …
+    ("dialog_c", ["say and retract", "two things"], ["  ask and retract", "  \"First.\"", "  \"Third.\"", "  ask two things", "  \"Second.\""], "  \"fb\""),
+    # … two LLM-written utterances in one call
+    ("dialog_c", ["three things"], ["  ask three things", "  \"First.\"", "  \"Second.\""], "  \"fb\""),
+    ("single_call_c", ["two things", "zzz"], ["  ask two things\nbot express greeting\n  \"unused\"", "  \"Second.\"", "  ask something\nbot inform thing\n  \"Fine.\""], "  ask x\nbot y\n  \"fb\""),
+    ("multi_step_c", ["two things", "zzz"], ["  ask two things", "  \"Second.\"", "  ask something", "bot express greeting\nbot inform thing", "  \"Fine.\""], "  \"fb\""),
+]
+
+
+def control_texts():
+    """{"all": [...], "priority": [...]} - from the translator run of this process, else scanned now (workers, replay)"""
+    ct = _TINFO.get("control_literals")
+    if ct is None:
+        from ..translate import c17 as tr
+
+        ct = tr.control_literals()
+        _TINFO["control_literals"] = ct
+    return ct
+
+
+_PINNED = None
+
+
+def _pinned_literals():
+    global _PINNED
+    if _PINNED is None:
+        with open(os.path.join(os.path.dirname(os.path.dirname(os.path.abspath(__file__))), "impl", "c17_literals.json")) as f:
+            _PINNED = set(json.load(f)["priority"])
+    return _PINNED
+
+
+def near_misses(lit):
+    """the literal and texts one edit away from it (what an exact comparison must NOT confuse with the literal)"""
+    out = [lit, lit + " ", " " + lit, lit.upper(), lit.lower(), lit[:-1], lit[1:], lit + lit, lit + "\n" + lit, lit + " x", "x " + lit, "(" + lit + ")", "[" + lit + "]"]
+    if lit.startswith("(") and lit.endswith(")"):
+        out += [lit[1:-1], lit[:-1] + " )", lit.replace(" ", "  ")]
+    seen, res = set(), []
+    for x in out:
+        if x not in seen:
+            seen.add(x)
+            res.append(x)
+    return res
+
+
+_Q_RE = re.compile(r'"([^"\n]*)"(?=[^"]*$)')
+
+
+def message_wrapper(completion):
+    """`%s`-wrapper that puts a text where the cooperative completion has its message: the last double-quoted segment, else the whole
+    completion.  (None: the text would not survive as THE message - it contains a quote / newline the position cannot carry.)"""
+    m = _Q_RE.search(completion)
+    if m:
+        return completion[: m.start(1)].replace("%", "%%") + "%s" + completion[m.end(1):].replace("%", "%%")
+    return "%s"
+
+
+def message_positions(script, msgpos):
+    return sorted(set(msgpos) | {i for i, c in enumerate(script) if _Q_RE.search(c)})
+
+
+def all_control_bases():
+    """every base conversation of every mode + the later-utterance bases, as (mode, turns, script, message positions, fallback)"""
+    out = []
+    for mode, turns, script, msgpos, fb in base_conversations():
+        out.append((mode, turns, script, message_positions(script, msgpos), fb))
+    return out
+
+
+def base_conversations_ctrl():
+    return [(mode, turns, script, message_positions(script, []), fb) for mode, turns, script, fb in CTRL_BASES]
+
+
+def as_flow_texts(lit):
+    """the literal where an LLM-written next step / flow can put it (1.0 multi-step bodies, 2.x generated flows)"""
+    w = re.sub(r"[^A-Za-z0-9_ ]", "", lit).strip() or "x"
+    return [f"bot {lit}", f"execute {w}", f"execute {w}(event=\"x\")", f"execute {w}(event={{\"_type\": \"{w}\"}})", f"execute create_event(event={{\"_type\": \"{w}\"}})",
+            f"$x = execute {w}", f"bot action: send {w}()", f"bot action: await {w}()", f"bot action: send Start{w}Action()", f"bot action: bot say \"{lit}\"",
+            f"bot intent: bot {w}\nbot action: send {w}Finished(final_script=\"x\")", f"user intent: user {w}", f"  {lit}\nbot {lit}\n  \"{lit}\""]
+
+
+# texts whose REPLY (after the quote stripping of the general / message positions) begins or ends with a character that some consumer of
+# the reply may interpret: every punctuation class once, single and doubled, at both ends
+SHAPE_CHARS = ["\"", "'", "`", "{", "}", "[", "]", "(", ")", "<", ">", "$", "#", "%", "\\", "/", "&", "*", "_", "-", "=", "+", "|", "~", "^", "@", "!", "?", ":", ";", ",", "."]
+REPLY_SHAPES = [c + "x" for c in SHAPE_CHARS] + ["x" + c for c in SHAPE_CHARS] + [c + c + "x" + c + c for c in SHAPE_CHARS] + [c + c + "x" + c for c in SHAPE_CHARS] + [c + "x" + c + c for c in SHAPE_CHARS] + [
+    "{\"a\": 1}", "[1, 2]", "null", "true", "NaN", "-1", "0", "0x10", "1e999", "\"\\\"", "%s", "%(x)s", "{0}", "{}", "<b>x</b>", "&amp;", "x\ty", "\\u0041", "\\x41"]
+
+
+def api_choices(mode):
+    if mode.startswith("v2"):
+        return E.APIS_V2
+    if mode.startswith("single_call"):
+        # the scripted LLM does not stream: single-call mode with a streaming handler waits for tokens that never come (harness limit)
+        return [a for a in E.APIS_V1 if a != "stream"]
+    return E.APIS_V1
+
+
+def gen_control(rng, n, tier):
+    """(1) systematic: every PRIORITY literal as the exact message text at every message position of every base of every mode
+    (first utterance) and of the later-utterance bases, plain `messages` interface;   (2) random: any literal / near miss / flow form
+    at any call position, through every public interface (options+log, prompt, state, streaming handler, verbose instance)."""
+    ct = control_texts()
+    bases = all_control_bases() + base_conversations_ctrl()
+    out = []
+    for lit in ct["priority"]:
+        if "\n" in lit or "\"" in lit:
+            continue
+        for mode, turns, script, mpos, fb in bases:
+            for pos in mpos:
+                resp = list(script)
+                resp[pos] = message_wrapper(script[pos]) % lit
+                out.append({"kind": "e2e", "mode": mode, "turns": turns, "llm": resp, "fallback": fb, "pos": [pos], "msgpos": [pos], "ctrl": lit})
+    if _TINFO.get("assembly_literals") is None:
+        from ..translate import c17 as tr
+
+        try:
+            a = tr.assembly()["assembly"]
+        except TieBroken:
+            a = {}
+        _TINFO["assembly"] = a
+        _TINFO["assembly_literals"] = [a.get(k) for k in ("utter_type", "remove_script", "exception_suffix", "v2_finished") if a.get(k)]
+    if not _TINFO.get("assembly_literals"):
+        # the shape of the assembly is not understood (tie broken): every literal that generate_async compares with a text that looks
+        # like a script / type name is a core literal
+        _TINFO["assembly_literals"] = [x for x in ct.get("generate_async", []) if len(x) >= 6 and x not in ("assistant", "exception", "content", "generation", "event_created_at", "source_uid", "action_uid")]
+    # near misses of the control script(s) of the assembly itself, same positions (an exact comparison must not be loosened / a second
+    # site must not treat them as the control script)
+    a = _TINFO.get("assembly") or {}
+    rms = [a["remove_script"]] if a.get("remove_script") else [x for x in _TINFO["assembly_literals"] if x.startswith("(")]
+    for rm in rms:
+        for t in [rm + " ", " " + rm, rm.upper(), rm[:-1], rm + rm]:
+            for mode, turns, script, mpos, fb in bases:
+                for pos in mpos:
+                    resp = list(script)
+                    resp[pos] = message_wrapper(script[pos]) % t
+                    case = {"kind": "e2e", "mode": mode, "turns": turns, "llm": resp, "fallback": fb, "pos": [pos], "msgpos": [pos], "ctrl": rm, "near": True}
+                    if not mode.startswith("v2") and len(turns) > 1:
+                        case["api"] = "nocache"  # the later turns rebuild the history from the (LLM-written) assistant messages
+                    out.append(case)
+    # budget: ALL of the literals the assembly of generate_async itself compares with (every mode, every message position), a seeded
+    # sample of the other priority literals (quick: up to n cases in total, thorough: 1.5 n more)
+    core = set(_TINFO.get("assembly_literals") or [])
+    keep = [c for c in out if c["ctrl"] in core and not c.get("near")]
+    near = [c for c in out if c.get("near")]
+    rng.shuffle(near)
+    keep += near[: (n // 2 if tier == "quick" else len(near))]
+    rest = [c for c in out if c["ctrl"] not in core]
+    rng.shuffle(rest)
+    out = keep + (rest[: max(0, n - len(keep))] if tier == "quick" else rest[: n + n // 2])
+    # (1b) a priority literal the pinned inventory (harness/impl/c17_literals.json) does not know = the post-processing interprets a NEW
+    # text: the literal and its near misses at every message position of every base through EVERY public interface
+    new_lits = [x for x in ct["priority"] if x not in _pinned_literals()]
+    for lit in new_lits[:6]:
+        for t in near_misses(lit)[:7] + [lit[: max(1, len(lit) - 2)], lit + "abc"]:
+            if "\n" in t or "\"" in t:
+                continue
+            for mode, turns, script, mpos, fb in bases:
+                for pos in mpos:
+                    for api in api_choices(mode):
+                        resp = list(script)
+                        resp[pos] = message_wrapper(script[pos]) % t
+                        case = {"kind": "e2e", "mode": mode, "turns": turns, "llm": resp, "fallback": fb, "pos": [pos], "msgpos": [pos], "ctrl": lit, "new_literal": True}
+                        if api not in ("messages",) and not (mode.startswith("v2") and api == "state"):
+                            case["api"] = api
+                        out.append(case)
+    # (2) what the interfaces themselves do with the reply / the log: the whole hostile corpus as THE reply (general mode: the
+    # completion is the message; cheap), through every public interface
+    # general mode: the FULL product (hostile text x interface; ~0.03 s per case); passthrough: a seeded sample
+    hs = [h for h in HOSTILE if len(h) <= 4000] + REPLY_SHAPES
+    for h in hs:
+        for api in E.APIS_V1:
+            if api not in ("messages", "verbose"):
+                out.append({"kind": "e2e", "mode": "general", "turns": ["zzz", "qqq"], "llm": [h, "Second."], "fallback": "fb", "pos": [0], "msgpos": [0], "api": api})
+    combos = [(h, api) for h in hs for api in E.APIS_V1 if api != "messages"]
+    rng.shuffle(combos)
+    for h, api in combos[: (n // 2 if tier == "quick" else 2 * n)]:
+        out.append({"kind": "e2e", "mode": "passthrough" if api != "verbose" else "general", "turns": ["zzz"], "llm": [h, "Second."], "fallback": "fb", "pos": [0], "msgpos": [0], "api": api})
+    # (3) the hostile corpus / mutations at any position through the other public interfaces; (4) the stored-then-quoted payloads likewise
+    plain = all_control_bases()
+    for _ in range(n // 2):
+        mode, turns, script, mpos, fb = rng.choice(plain)
+        resp = list(script)
+        pos = rng.randrange(len(script))
+        r = rng.random()
+        resp[pos] = rng.choice(HOSTILE[:170]) if r < 0.6 else (message_wrapper(script[pos]) % g_payload(rng) if pos in mpos and r < 0.85 else mutate(rng, script[pos]))
+        apis = [a for a in api_choices(mode) if a not in ("messages",) and not (mode.startswith("v2") and a == "state")]
+        out.append({"kind": "e2e", "mode": mode, "turns": turns, "llm": resp, "fallback": fb, "pos": [pos], "msgpos": mpos, "api": rng.choice(apis)})
+    for c in gen_quote(rng, n // 4):
+        c["api"] = rng.choice(["verbose"] if c["mode"].startswith("v2") else ["options", "state", "stream", "verbose"] if not c["mode"].startswith("single_call") else ["options", "state", "verbose"])
+        out.append(c)
+    lits = ct["all"]
+    k = 0
+    while k < n:
+        k += 1
+        mode, turns, script, mpos, fb = rng.choice(bases)
+        lit = rng.choice(ct["priority"]) if rng.random() < 0.6 else rng.choice(lits)
+        r = rng.random()
+        pos = rng.randrange(len(script))
+        if r < 0.45 and mpos:
+            pos = rng.choice(mpos)
+            t = rng.choice(near_misses(lit))
+            text = message_wrapper(script[pos]) % t if "\"" not in t else t
+        elif r < 0.7:
+            text = rng.choice(as_flow_texts(lit))
+        elif r < 0.85:
+            text = rng.choice(near_misses(lit))
+        else:
+            text = mutate(rng, script[pos]).replace(rng.choice(WORDS), lit, 1)
+        resp = list(script)
+        resp[pos] = text
+        ps = [pos]
+        if rng.random() < 0.2:
+            p2 = rng.randrange(len(script))
+            if p2 != pos:
+                resp[p2] = message_wrapper(script[p2]) % rng.choice(ct["priority"]) if p2 in mpos else rng.choice(near_misses(rng.choice(lits)))
+                ps = sorted([pos, p2])
+        case = {"kind": "e2e", "mode": mode, "turns": turns, "llm": resp, "fallback": fb, "pos": ps, "msgpos": mpos, "ctrl": lit}
+        api = rng.choice(api_choices(mode))
+        if api not in ("messages",) and not (mode.startswith("v2") and api == "state"):
+            case["api"] = api
+        out.append(case)
+    return out
+
+
+ASM_TYPES = ["StartUtteranceBotAction", "StartUtteranceBotAction", "StartUtteranceBotAction", "Listen", "BotIntent", "UserIntent", "BotMessage", "StartInternalSystemAction",
+             "InternalSystemActionFinished", "InputRailException", "OutputRailException", "Exception", "exception", "XException ", "ExceptionX", "hide_prev_turn", "UtteranceBotActionFinished",
+             "StartFooAction", "StartAction", "Start\nAction", "StartFooActionX", "startFooAction", "StopUtteranceBotAction", "UtteranceBotActionStarted", "ContextUpdate", "x", ""]
+
+
+def g_asm(rng):
+    """a list of NEW EVENTS as the runtime could return it, handed to the real response assembly of generate_async"""
+    ct = control_texts()
+    v = rng.choice(["1.0", "1.0", "2.x"])
+    scripts = near_misses("(remove last message)") + [rng.choice(ct["priority"]), rng.choice(ct["all"]), "Hi", "", "a\nb", "ZQX {{ 191*7 }} $secret QXZ", g_line(rng)]
+    evs = []
+    for _ in range(rng.choice([0, 1, 1, 2, 2, 3, 4, 6])):
+        t = rng.choice(ASM_TYPES) if rng.random() < 0.85 else rng.choice(ct["all"])
+        e = {"type": t}
+        # the keys the runtime always sets for its own event types (the history / cache code after the assembly reads them)
+        e.update({"UserIntent": {"intent": "ask x"}, "BotIntent": {"intent": "inform x"}, "BotMessage": {"text": "t"}, "UserMessage": {"text": "hi"},
+                  "StartInternalSystemAction": {"action_name": "a", "action_params": {}, "action_result_key": None, "is_system_action": True},
+                  "InternalSystemActionFinished": {"action_name": "a", "action_params": {}, "return_value": None, "status": "success", "events": [], "is_system_action": True},
+                  "ContextUpdate": {"data": {}}}.get(t, {}))
+        if t == "StartUtteranceBotAction" or rng.random() < 0.1:
+            e["script"] = rng.choice(scripts) if rng.random() < 0.6 else "(remove last message)"
+        if v == "2.x":
+            if t.startswith("Start") or rng.random() < 0.1:
+                e["action_uid"] = "uid-%d" % len(evs)
+            if t == "UtteranceBotActionFinished" or rng.random() < 0.1:
+                e["final_script"] = rng.choice(scripts)
+            if rng.random() < 0.5:
+                e["uid"] = "u%d" % len(evs)
+                e["event_created_at"] = "t"
+            if rng.random() < 0.3:
+                e["source_uid"] = "s"
+            if rng.random() < 0.3:
+                e["extra"] = rng.choice(scripts)
+        evs.append(e)
+    return {"kind": "asm", "v": v, "events": evs}
+
+
 def gen_cases(rng, tier):
     n_fn, n_act, n_bot, n_e2e = (30000, 2000, 500, 300) if tier == "quick" else (200000, 16000, 4000, 4000)
     n_quote = 160 if tier == "quick" else 2400
@@ -409,6 +692,10 @@ def gen_cases(rng, tier):
         cases.append(g_botmsg(rng))
     cases.extend(gen_e2e(rng, n_e2e))
     cases.extend(gen_quote(rng, n_quote))
+    n_ctrl, n_asm = (250, 600) if tier == "quick" else (2000, 6000)
+    cases.extend(gen_control(rng, n_ctrl, tier))
+    for _ in range(n_asm):
+        cases.append(g_asm(rng))
     for _ in range(n_act // 10):
         # `_process_start_flow` with an INJECTED parser behaviour (the parser is an oracle: any exception, any list of flows)
         fid = "dyn-" + UUID[:8]
@@ -519,6 +806,9 @@ def _parser_name(app, task):
     return get_prompt(app.config, task).output_parser or "none"
 
 
+START_ACTION_RE = r"Start(.*Action)"  # the translator breaks the tie when generate_async uses another pattern
+
+
 def fn_impl(s, k):
     from nemoguardrails.actions.llm import utils as U
     from nemoguardrails.actions.llm.generation import clean_utterance_content
@@ -551,6 +841,7 @@ def fn_impl(s, k):
         "escape_u": U.escape_flow_name(s),
         "indent": __import__("textwrap").indent(s, "  "),
         "splitlines_keep": s.splitlines(True),
+        "start_action": (lambda m: m[1] if m else None)(re.match(START_ACTION_RE, s)),
     }
     if s.isascii():
         o["escape"] = U.escape_flow_name(s)
@@ -885,6 +1176,49 @@ def botmsg_impl(case):
     return obs
 
 
+def asm_impl(case):
+    """the REAL `generate_async` with the runtime's answer replaced by the event list of the case: everything after
+    `runtime.generate_events` / `runtime.process_events` (response assembly, message, cache, colang history, result) runs as it is"""
+    evs = [dict(e) for e in case["events"]]
+    if case["v"] == "1.0":
+        app = _app("v1", "instruct")
+        rt = app.runtime
+
+        async def fake(events, processing_log=None):
+            return [dict(e) for e in evs]
+
+        rt.generate_events = fake
+        app.events_history_cache.clear()
+        try:
+            with contextlib.redirect_stdout(io.StringIO()):
+                r = app.generate(messages=[{"role": "user", "content": "hi"}])
+            if isinstance(r, dict) and r.get("role") == "exception":
+                idx = [i for i, e in enumerate(evs) if e == r.get("content")]
+                return {"res": {"ok": {"role": "exception", "index": idx[-1] if idx else -1}}}
+            return {"res": {"ok": r}}
+        except Exception as e:  # noqa
+            return {"res": _exc(e)}
+        finally:
+            del rt.generate_events
+    app = _app("v2", "instruct")
+    rt = app.runtime
+
+    async def fake2(events, state=None, instant_actions=None, blocking=False):
+        return [dict(e) for e in evs], app._verif_state
+
+    rt.process_events = fake2
+    try:
+        with contextlib.redirect_stdout(io.StringIO()):
+            res = app.generate(messages=[{"role": "user", "content": "hi"}], state={})
+        m = res.response[0]
+        return {"res": {"ok": {"content": m.get("content"), "tool_calls": [{"id": t["id"], "name": t["function"]["name"], "args": sorted(t["function"]["arguments"])} for t in m.get("tool_calls", [])],
+                               "events": [max(i for i, e in enumerate(evs) if e == x) for x in m.get("events", [])], "role": m.get("role"), "n": len(res.response)}}}
+    except Exception as e:  # noqa
+        return {"res": _exc(e)}
+    finally:
+        del rt.process_events
+
+
 def run_impl(case):
     k = case["kind"]
     if k == "ws":
@@ -899,7 +1233,9 @@ def run_impl(case):
         return botmsg_impl(case)
     if k == "e2e":
         ctx = {"secret": E.SECRET} if not case["mode"].startswith("v2") else None
-        return E.run_conversation(case["mode"], case["turns"], case["llm"], case["fallback"], context=ctx)
+        return E.run_conversation(case["mode"], case["turns"], case["llm"], case["fallback"], context=ctx, api=case.get("api"))
+    if k == "asm":
+        return asm_impl(case)
     raise ValueError(k)
 
 
@@ -932,6 +1268,15 @@ def model_requests(case, obs):
         if case.get("sc"):
             req["sc"] = case["sc"]
         return [req]
+    if k == "asm":
+        evs = []
+        for e in case["events"]:
+            d = {"type": e["type"], "keys": sorted(x for x in e if True)}
+            for key in ("script", "final_script", "action_uid"):
+                if key in e:
+                    d[key] = e[key]
+            evs.append(d)
+        return [{"m": "C17.asm", "v": case["v"], "events": evs}]
     return []
 
 
@@ -955,6 +1300,24 @@ def compare(case, obs, mouts):
     k = case["kind"]
     if k in ("fn", "act", "botmsg"):
         obs = encj(obs)
+    if k == "asm":
+        r = obs["res"]
+        if "err" in r:
+            return None if m.get("err") == r["err"] else f"response assembly of generate_async raised {r['err']}, model {m}"
+        if "ok" not in m:
+            return f"response assembly of generate_async returned {r['ok']!r}, model {m}"
+        got = r["ok"]
+        if case["v"] == "1.0":
+            want = m["ok"]
+            if got.get("role") == "assistant":
+                got = {"role": "assistant", "content": enc(got.get("content")) if isinstance(got.get("content"), str) else got.get("content")}
+            return None if got == want else f"response assembly (1.0): implementation {got!r} model {want!r}"
+        want = m["ok"]
+        got2 = {"content": enc(got["content"]) if isinstance(got["content"], str) else got["content"], "tool_calls": encj(got["tool_calls"]), "events": got["events"]}
+        # identical events cannot be told apart by value: compare the events list by the events themselves
+        evs = case["events"]
+        same = got2["content"] == want["content"] and got2["tool_calls"] == [dict(t, args=sorted(t["args"])) for t in want["tool_calls"]] and [evs[i] for i in got2["events"]] == [evs[i] for i in want["events"]]
+        return None if same and got["role"] == "assistant" and got["n"] == 1 else f"response assembly (2.x): implementation {got!r} model {want!r}"
     if k == "ws":
         if sorted(m["ws"]) != obs["ws"]:
             return f"whitespace table of Py/Str.lean differs from str.strip(): model-only {sorted(set(m['ws']) - set(obs['ws']))}, python-only {sorted(set(obs['ws']) - set(m['ws']))}"
@@ -1119,6 +1482,21 @@ def oracle(case, obs):
         return None
     if k in ("fn", "ws"):
         return None
+    if k == "asm":
+        # whatever the texts / types of the new events are, the assembly yields a message; the only exception it may raise is the
+        # KeyError of an event that lacks the key its type promises (the runtimes never create such events: not LLM-controlled)
+        r = obs["res"]
+        if "err" in r:
+            if r["err"] == "KeyError" and not _asm_keys_present(case):
+                return None
+            return f"escape:response assembly of generate_async raised {r['err']} on new events {str(case['events'])[:300]}"
+        o = r["ok"]
+        if case["v"] == "1.0":
+            if not (isinstance(o, dict) and ((o.get("role") == "assistant" and isinstance(o.get("content"), str)) or (o.get("role") == "exception" and o.get("index", -1) >= 0))):
+                return f"malformed:response assembly returned {str(o)[:200]}"
+        elif not (o.get("role") == "assistant" and isinstance(o.get("content"), str) and o.get("n") == 1):
+            return f"malformed:response assembly (2.x) returned {str(o)[:200]}"
+        return None
     if k == "act":
         # an action may raise (contained by the dispatcher) but a returned event must be well-formed
         for key, v in obs.items():
@@ -1160,7 +1538,7 @@ def oracle(case, obs):
                 if want and seg not in want:
                     return f"rewritten:turn {t}: marked LLM message text came back altered: {seg!r} not in {sorted(want)!r}"
         # stored-then-quoted: a predefined message that quotes `last_bot_message` shows the previous reply literally
-        if mode in ("dialog_q", "single_call_q") and t >= 1 and isinstance(text, str):
+        if mode in ("dialog_q", "single_call_q") and t >= 1 and isinstance(text, str) and case.get("api") != "prompt":  # `prompt=`: every call is a new conversation
             q = _quoted_part(text)
             prev = _content_of(mode, obs["turns"][t - 1]["reply"])[1] if "reply" in obs["turns"][t - 1] else None
             if q is not None and isinstance(prev, str) and prev != "":
@@ -1170,6 +1548,21 @@ def oracle(case, obs):
                 if q_c not in tails:
                     return f"rewritten:turn {t}: the predefined message quotes the previous bot message, but not literally: quoted {q[:160]!r}, previous reply {prev[:160]!r}"
     return None
+
+
+def _asm_keys_present(case):
+    for e in case["events"]:
+        t = e["type"]
+        if case["v"] == "1.0":
+            if t == "StartUtteranceBotAction" and "script" not in e:
+                return False
+        else:
+            if re.match(START_ACTION_RE, t):
+                if "action_uid" not in e:
+                    return False
+            elif t == "UtteranceBotActionFinished" and "final_script" not in e:
+                return False
+    return True
 
 
 def signature(case, obs, msg):
@@ -1184,6 +1577,10 @@ def signature(case, obs, msg):
         for rec in obs["turns"]:
             if rec.get("hang") or "raised" in rec:
                 through = rec.get("through") or []
+                if rec.get("exc_type") == "MarkupError" and "emit" in through:
+                    return f"{cls}:verbose-log:rich-markup"  # any mode: the verbose log handler prints LLM text as rich markup
+                if mode.startswith("multi_step") and "_load_flow_config" in through:
+                    return f"{cls}:multi_step:_load_flow_config"
                 if mode == "multi_step" and str(rec.get("where", "")).endswith("eval_expression"):
                     return f"{cls}:{mode}:generated-flow-expression"
                 if rec.get("via_start_flow") or "_process_start_flow" in through:
@@ -1238,6 +1635,8 @@ def nontrivial(case, obs):
     if k in ("fn", "act", "botmsg"):
         s = case["s"]
         return "\n" in s or any(p.strip() and p in s for p in PREFIXES) or any(t in s for t in TEMPLATES) or "\"" in s
+    if k == "asm":
+        return len(case["events"]) > 0
     if k == "e2e":
         return obs.get("llm_calls", 0) > min(case["pos"]) if case["pos"] else False
     return True
@@ -1271,7 +1670,17 @@ def tags(case, obs):
     elif k == "botmsg":
         r = obs["res"]
         t.append("botmsg:" + ("err:" + r["err"] if "err" in r else ("rendered" if obs["render_calls"] else ("llm" if obs["llm_calls"] else "context"))))
+    elif k == "asm":
+        r = obs["res"]
+        t.append("asm:" + case["v"] + ":" + ("err:" + r["err"] if "err" in r else "exception" if r["ok"].get("role") == "exception" else "assistant"))
+        t.append("asm:events:" + str(min(6, len(case["events"]))))
+        if any(e.get("script") == "(remove last message)" for e in case["events"]):
+            first = next((e.get("script") for e in case["events"] if e["type"] == "StartUtteranceBotAction"), None)
+            t.append("asm:control-script" + (":first" if first == "(remove last message)" else ":later"))
     elif k == "e2e":
+        if case.get("ctrl") is not None:
+            t.append("ctrl:literal" + (":NEW" if case.get("new_literal") else ""))
+        t.append("api:" + case.get("api", "default"))
         t.append("mode:" + case["mode"])
         t.append("calls:" + str(min(8, obs.get("llm_calls", 0))))
         for rec in obs["turns"]:
@@ -1298,7 +1707,12 @@ def shrink(case):
             yield dict(case, s=s[n // 2:])
         for i in range(min(n, 40)):
             yield dict(case, s=s[:i] + s[i + 1:])
+    elif case["kind"] == "asm":
+        for i in range(len(case["events"])):
+            yield dict(case, events=case["events"][:i] + case["events"][i + 1:])
     elif case["kind"] == "e2e":
+        if case.get("api"):
+            yield {kk: vv for kk, vv in case.items() if kk != "api"}
         if len(case["turns"]) > 1:
             yield dict(case, turns=case["turns"][:-1])
         bases = {b[0]: b for b in base_conversations()}
@@ -1324,5 +1738,5 @@ def escalate(rng, focus, tier):
                 cases.append({"kind": "e2e", "mode": mode, "turns": turns, "llm": resp, "fallback": fb, "pos": [pos], "msgpos": msgpos})
     for _ in range(n):
         cases.append(g_botmsg(rng))
-    cases = gen_quote(rng, n // 2) + cases
+    cases = gen_control(rng, n, "thorough" if tier == "thorough" else "quick") + gen_quote(rng, n // 2) + cases
     return cases
